@@ -9,66 +9,6 @@ import (
 	"os"
 )
 
-// verifC04Perm returns the which-th insertion order of n elements:
-// 0 identity, 1 reverse, 2 rotate by n/2, 3 odd positions first then even, 4 an LCG shuffle.
-// For n <= 3 `which` enumerates all n! orders.
-func verifC04Perm(n, which int) []int {
-	p := make([]int, n)
-	for i := range p {
-		p[i] = i
-	}
-	if n <= 3 {
-		all := [][]int{{0, 1, 2}, {0, 2, 1}, {1, 0, 2}, {1, 2, 0}, {2, 0, 1}, {2, 1, 0}}
-		if n == 3 {
-			return all[which%6]
-		}
-		if n == 2 && which%2 == 1 {
-			return []int{1, 0}
-		}
-		return p
-	}
-	switch which {
-	case 1:
-		for i := range p {
-			p[i] = n - 1 - i
-		}
-	case 2:
-		for i := range p {
-			p[i] = (i + n/2) % n
-		}
-	case 3:
-		k := 0
-		for i := 1; i < n; i += 2 {
-			p[k] = i
-			k++
-		}
-		for i := 0; i < n; i += 2 {
-			p[k] = i
-			k++
-		}
-	case 4:
-		s := uint32(12345 + n)
-		for i := n - 1; i > 0; i-- {
-			s = s*1103515245 + 12345
-			j := int((s >> 8) % uint32(i+1))
-			p[i], p[j] = p[j], p[i]
-		}
-	}
-	return p
-}
-
-func verifC04NumPerms(n, want int) int {
-	switch {
-	case n <= 1:
-		return 1
-	case n == 2:
-		return 2
-	case n == 3:
-		return 6
-	}
-	return want
-}
-
 // verifC04WriteBucket lays out `entries` (in the given order) exactly as hashBucket +
 // sealBucket do after hashing: sortWithCompare with hashBucket's comparator, marshalEntry of
 // every entry through a bufio-free direct write, bucket header through writeTo.
@@ -178,6 +118,123 @@ func VerifC04Search() {
 			bad |= verifIteU64(x == h[i], 1, 0) &^ verifIteU64(bytes.Equal(got, vals[i]), 1, 0)
 		}
 		verifAssert(bad == 0, "C04.search: lookup returned a value other than the one inserted with the hash")
+		verifReach("found")
+	}
+	verifReach("end")
+}
+
+// verifC04DeepHash is the i-th smallest of n concrete, strictly increasing 24-bit hashes that
+// include both ends of the range.
+func verifC04DeepHash(i, n int) uint64 {
+	if i == 0 {
+		return 0
+	}
+	if i == n-1 {
+		return 0xffffff
+	}
+	step := uint64(1<<24) / uint64(n)
+	return uint64(i)*step + (uint64(i)*7919)%step
+}
+
+func verifC04DeepValue(i int) []byte {
+	v := make([]byte, 8)
+	x := uint64(i+1) * 0x9e3779b97f4a7c15
+	for k := range v {
+		v[k] = byte(x >> (8 * k))
+	}
+	return v
+}
+
+// C04.search.deep — the per-bucket lemma at bucket sizes beyond what the fully symbolic
+// C04.search reaches, up to the real target bucket size (10 000) and the perfect-tree
+// boundaries 2^k-1, 2^k, 2^k+1: n concrete, strictly increasing hashes (search and layout are
+// comparison based, so they are representative of every hash set of that size), inserted in a
+// pseudo-random order (n <= 130) or ascending (larger n: the sort model is quadratic otherwise),
+// laid out by the real sortWithCompare/eytzinger + marshalEntry and read back through
+// readFrom + loadEntry/unmarshalEntry + searchEytzinger. The looked-up hash x is symbolic:
+// for n <= wide it ranges over ALL 24-bit values (2n+1 paths: every stored hash and every gap),
+// for larger n over a window of 2 stored hashes around each of 10 positions (first, last,
+// middle, tree-level boundaries, pseudo-random). Oracle as in C04.search.
+func VerifC04SearchDeep() {
+	var ns []int
+	switch verifParam("set", 0) {
+	case 0: // quick
+		ns = []int{32, 33, 64}
+	case 1: // every n in 21..80 and the next tree-level boundary
+		for n := 21; n <= 80; n++ {
+			ns = append(ns, n)
+		}
+		ns = append(ns, 100, 127, 128, 129)
+	case 2:
+		ns = []int{255, 256, 257, 511, 512, 513, 1000}
+	case 3:
+		ns = []int{9999, 10000, 10001, 16383, 16384, 16385}
+	}
+	n := ns[verifChoice("n", len(ns))]
+	wide := verifParam("wide", 130)
+	const vs = 8
+	h := make([]uint64, n)
+	vals := make([][]byte, n)
+	for i := range h {
+		h[i] = verifC04DeepHash(i, n)
+		if n <= 130 {
+			vals[i] = verifBytes("value", vs)
+		} else {
+			vals[i] = verifC04DeepValue(i)
+		}
+	}
+	entries := make([]Entry, n)
+	for k := range entries {
+		i := k
+		if n <= 130 {
+			i = (k*37 + 11) % n // a permutation when gcd(37, n) == 1
+			if n%37 == 0 {
+				i = n - 1 - k
+			}
+		}
+		entries[k] = Entry{Hash: h[i], Value: vals[i]}
+	}
+	const headerSize = 29
+	path := verifTempPath("deep.idx")
+	f := verifC04WriteBucket(path, entries, vs, headerSize)
+	b := &Bucket{BucketDescriptor: BucketDescriptor{Stride: uint8(HashSize) + vs, OffsetWidth: vs}}
+	b.BucketHeader.headerSize = headerSize
+	verifAssert(b.BucketHeader.readFrom(f, 0) == nil, "C04.search.deep: bucket header unreadable")
+	verifAssert(b.NumEntries == uint32(n), "C04.search.deep: entry count")
+	b.Entries = io.NewSectionReader(f, int64(b.FileOffset), int64(b.NumEntries)*int64(b.Stride))
+
+	x := uint64(verifU32("x"))
+	verifAssume(x < 1<<24)
+	lo, hi := 0, n-1
+	if n > wide {
+		pos := []int{0, 1, n / 4, n/2 - 1, n / 2, 3 * n / 4, n - 2, n - 1, (n * 7) / 19, (n * 13) / 17}
+		c := pos[verifChoice("window", len(pos))]
+		lo, hi = c-1, c+1
+		if lo < 0 {
+			lo = 0
+		}
+		if hi > n-1 {
+			hi = n - 1
+		}
+		verifAssume(h[lo] <= x && x <= h[hi])
+	}
+	got, err := searchEytzinger(0, int(b.NumEntries), x, b.loadEntry)
+	// oracle over the candidates in [lo, hi] (x cannot equal a hash outside the window)
+	var member, bad uint64
+	for i := lo; i <= hi; i++ {
+		eq := verifIteU64(x == h[i], 1, 0)
+		member |= eq
+		if err == nil {
+			bad |= eq &^ verifIteU64(len(got) == vs && bytes.Equal(got, vals[i]), 1, 0)
+		}
+	}
+	if err != nil {
+		verifAssert(errors.Is(err, ErrNotFound), "C04.search.deep: lookup failed with an error other than ErrNotFound")
+		verifAssert(member == 0, "C04.search.deep: stored hash not found (entry lost)")
+		verifReach("notfound")
+	} else {
+		verifAssert(member == 1, "C04.search.deep: absent hash reported as found")
+		verifAssert(bad == 0, "C04.search.deep: lookup returned a value other than the one inserted with the hash")
 		verifReach("found")
 	}
 	verifReach("end")
